@@ -1469,6 +1469,20 @@ impl DFA {
     }
 }
 
+#[cfg(feature = "verif")]
+impl DFA {
+    pub fn verif_input(&self, id: InpId) -> &Inp {
+        self.get_input(id)
+    }
+}
+
+#[cfg(feature = "verif")]
+impl DFAInternPool {
+    pub fn verif_lookup(&self, id: DFAId) -> &DFA {
+        self.lookup(id)
+    }
+}
+
 #[cfg(test)]
 mod tests {
     use std::cell::RefCell;
